@@ -199,6 +199,62 @@ Example C03_keeps_wf_ex :
   ~ slots_wf false (mark_deleted ex_dir2 2 3) /\ ~ slots_wf false (zero_slot :: ex_dir2).
 Proof. split; [reflexivity|]. split; [reflexivity|]. split; vm_compute; discriminate. Qed.
 
+
+(* ================================================================== whole images (Model/VolDir.v, Proofs/VolDirProofs.v): the
+   slot clauses above lifted to the invariant itself, [Wf.wf_issues fold im = []], for operations on the FIXED ROOT directory
+   of a FAT12/16 volume.  [fixed_root_geom]: Props/C01.v (C01_vol_formatted_geom: what format_volume produces). *)
+From FatVerif Require Import Model.VolDir Proofs.VolDirProofs.
+
+(* ---- the bridge from slots to images: replace the root region of an image by ANY slots [ss] of the right shape.  The
+   decoder reads the same geometry, and the decoded volume is: root entries = the scan of [ss], each entry decoded (chain,
+   content, sub-directory) against the bytes of the OLD image - the FAT and the data area are not in the root region -,
+   issues and labels of the scan of [ss], status byte as before. *)
+Theorem C03_vol_decode_put_root : forall im ss es ls iss,
+  fixed_root_geom (parse_geom im) ->
+  length ss = N.to_nat (g_root_entries (parse_geom im)) -> Forall (fun s => length s = 32%nat) ss ->
+  dir_scan ss 0 [] false = (es, ls, iss) ->
+  parse_geom (put_root_slots (parse_geom im) im ss) = parse_geom im /\
+  abs (put_root_slots (parse_geom im) im ss) =
+    {| v_geom := parse_geom im; v_root_chain := None; v_root := decode_entries (parse_geom im) im MAX_DEPTH es;
+       v_root_issues := iss; v_labels := ls; v_status := img_get im (g_status_off (parse_geom im));
+       v_fsinfo_free := 0; v_fsinfo_next := 0 |}.
+Proof. intros im ss es ls iss Hg H1 H2. exact (abs_put_root im ss es ls iss Hg (conj H1 H2)). Qed.
+(* ... and an image is decoded from its own root region in the same way *)
+Theorem C03_vol_decode_fixed_root : forall im es ls iss,
+  g_bits (parse_geom im) <> 32 -> dir_scan (root_region_slots (parse_geom im) im) 0 [] false = (es, ls, iss) ->
+  abs im =
+    {| v_geom := parse_geom im; v_root_chain := None; v_root := decode_entries (parse_geom im) im MAX_DEPTH es;
+       v_root_issues := iss; v_labels := ls; v_status := img_get im (g_status_off (parse_geom im));
+       v_fsinfo_free := 0; v_fsinfo_next := 0 |}.
+Proof. exact abs_fixed_root. Qed.
+
+(* ---- create_file in the root of a well-formed volume leaves it well formed: no clause of Spec/Wf.v is violated afterwards
+   (end marker, long-name runs, duplicate short names, chains, cross links, lost clusters, sizes, dot entries, depth),
+   provided the new long name does not collide with an existing one under the folding [fold] the WDupLong clause is
+   evaluated with (that the library's own matching implies this for its folding is the missing "WDupLong link") *)
+Theorem C03_vol_create_keeps_wf : forall fold upper oem im name now range im',
+  fixed_root_geom (parse_geom im) -> Wf.wf_issues fold im = [] -> TimeProofs.datetime_valid now = true ->
+  vol_create_empty_file_root upper oem im name now = (Ok (Some range), im') ->
+  (is_dot_name name = false ->
+   ~ In (fold (utf16_encode name))
+        (map fold (filter (fun l => negb (match l with [] => true | _ => false end))
+                          (map e_lfn (map node_entry (v_root (abs im))))))) ->
+  Wf.wf_issues fold im' = [].
+Proof. exact vol_create_keeps_wf. Qed.
+(* ... hence any sequence of creates that each made a new entry, with pairwise distinct folded names none of which is in
+   use, keeps every intermediate and the final volume well formed *)
+Theorem C03_vol_create_many_keeps_wf : forall fold upper oem reqs im im',
+  fixed_root_geom (parse_geom im) -> Wf.wf_issues fold im = [] ->
+  Forall (fun q => TimeProofs.datetime_valid (snd q) = true) reqs ->
+  Forall (fun q => is_dot_name (fst q) = false) reqs ->
+  NoDup (map (fun q => fold (utf16_encode (fst q))) reqs) ->
+  (forall q, In q reqs ->
+     ~ In (fold (utf16_encode (fst q)))
+          (map fold (filter (fun l => negb (match l with [] => true | _ => false end))
+                            (map e_lfn (map node_entry (v_root (abs im))))))) ->
+  vol_create_many upper oem im reqs = Some im' -> Wf.wf_issues fold im' = [].
+Proof. exact vol_create_many_keeps_wf. Qed.
+
 Print Assumptions C03_write_frame.
 Print Assumptions C03_write_effect.
 Print Assumptions C03_written_run_valid.
@@ -207,3 +263,7 @@ Print Assumptions C03_write_entry_refines.
 Print Assumptions C03_mark_deleted_refines.
 Print Assumptions C03_rename_slots_refines.
 Print Assumptions C03_slot_clauses_preserved.
+Print Assumptions C03_vol_decode_put_root.
+Print Assumptions C03_vol_decode_fixed_root.
+Print Assumptions C03_vol_create_keeps_wf.
+Print Assumptions C03_vol_create_many_keeps_wf.
